@@ -123,6 +123,7 @@ func DefaultSelectorPools() SelectorPools {
 		Paths: []string{
 			`.*`, `.*/rules/.*`, `.*\.yml`, `.*\.ya?ml`, `.*/alerts/.*\.yaml`, `rules/.*`, `.*/rules`, `.*rules.*`,
 			`.*/(rules|alerts)/.*`, `.*/rules/a\.yml|.*/b\.yml`, `.*/alerts/[^/]+`, `.*/a\..*`, `.+/sub/.+`, `/.*`, `.*/rules/.*|.*\.yaml`,
+			`.*/common/.*`, `.*/prod/.*`, `.*/(prod|rules)/.*`, `.*/outside/.*`, `.*/t\.yml`, `.*/(common|outside)/t\.yml`, `.*/prod/.*|.*/alerts/.*`,
 		},
 		Names: []string{
 			`.*`, `.+`, `Foo`, `Foo.*`, `.*Down`, `Foo|Bar`, `(Foo|BarDown)`, `Foo_?Bar`, `[A-Z][a-z]+`, `.*:.*`, `foo:.*`, `X1`,
